@@ -3,7 +3,11 @@ package sim
 func baseOps() map[string]int {
 	return map[string]int{
 		"tip": 12, "create_reporter": 8, "select_reporter": 6, "switch_reporter": 2, "remove_selector": 1,
-		"submit_value": 30, "withdraw_tip": 4, "delegate": 4, "undelegate": 3, "redelegate": 2, "send": 2, "unjail_reporter": 1,
+		"submit_value": 30, "withdraw_tip": 4, "delegate": 4, "undelegate": 3, "redelegate": 2, "send": 2, "unjail_reporter": 2,
+		"propose_dispute": 5, "add_fee": 3, "vote": 10, "withdraw_fee_refund": 3, "claim_reward": 3, "add_evidence": 1, "update_team": 1,
+		"request_attestations": 3, "withdraw_tokens": 3, "claim_deposits": 3, "deposit_report": 6, "register_spec": 1,
+		"gov_proposal": 1, "gov_vote": 6, "privileged_direct": 1, "multi": 3, "wrong_signer": 2, "create_validator": 1, "unjail_validator": 3,
+		"cancel_unbonding": 1, "tie_reports": 2,
 	}
 }
 
